@@ -234,6 +234,10 @@ theorem Safe.createSpeculative (n : Nat) (c : CellId) : Safe (Jqawk.createSpecul
     unfold Jqawk.createSpeculative
     safe_auto_with ih
 
+theorem Safe.memberStep (pos : Nat) (l r : CellId) : Safe (Jqawk.memberStep pos l r) := by
+  unfold Jqawk.memberStep
+  safe_auto
+
 theorem Safe.evalAssignment (pos : Nat) (l r : CellId) : Safe (Jqawk.evalAssignment pos l r) := by
   unfold Jqawk.evalAssignment
   safe_auto_with Safe.createSpeculative
@@ -381,6 +385,7 @@ macro "safe_ind" ih:term : tactic => `(tactic| repeat' (first
   | safe_ih $ih
   | (with_reducible_and_instances first
       | exact Safe.evalAssignment _ _ _
+      | exact Safe.memberStep _ _ _
       | exact Safe.callNative _ _ _
       | exact Safe.getIdentifier _ _
       | apply Safe.loopIter
